@@ -306,4 +306,31 @@ theorem unfoldF_stable {ss : SymSet} {x : Ind} (h : WF ss x) :
       have := argLoci_inside (h.genes i hi c hc) hl
       exact ih f2 l.idx l.cat this.2.1 this.2.2 (by omega) (by omega)
 
+/-! ### executable forms of the relations -/
+
+theorem mutStepStrongB_iff (ss : SymSet) (pl : Nat) (pre post : Ind) (n : Nat) :
+    mutStepStrongB ss pl pre post n = true ↔ MutStepStrong ss pl pre post n := by
+  simp [mutStepStrongB, MutStepStrong, List.all_eq_true, and_assoc]
+
+theorem treeXB_iff (frm to post : Ind) : treeXB frm to post = true ↔ TreeX frm to post := by
+  simp [treeXB, TreeX, List.any_eq_true, List.all_eq_true]
+
+theorem flavourB_iff (k : Nat) (frm to post : Ind) :
+    flavourB k frm to post = true ↔ Flavour k frm to post := by
+  unfold flavourB Flavour
+  split
+  · simp
+  · split
+    · simp
+    · split
+      · simp
+      · exact treeXB_iff frm to post
+
+theorem crossDirB_iff (frm to post : Ind) : crossDirB frm to post = true ↔ CrossDir frm to post := by
+  simp [crossDirB, CrossDir, flavourB_iff, and_assoc]
+
+theorem crossStepB_iff (lhs rhs post : Ind) :
+    crossStepB lhs rhs post = true ↔ CrossStep lhs rhs post := by
+  simp [crossStepB, CrossStep, crossDirB_iff]
+
 end Vita.C02
